@@ -18,7 +18,7 @@ CHECKS = {
  "C01": ("model_checking", "contract clauses C01_* over all histories (TLC) + replay of every reachable state x call and TLC-simulated long histories into the real code judged by TraceProps; plus the product sizes (around both read-buffer sizes) x 8 kinds of data argument x 5 store algorithms judged by TLC (TraceTables I_C01_Sweep)", "§5 C01"),
  "C02": ("model_checking", "Algorithms.tla (independent transcription of the spelling rule, Keys(call)) checked by TLC; TLC enumerates every spelling of the 12 algorithms + unsupported names; the harness drives ONE store instance through a long history of store_object / get_hex_digest calls over that product and TLC judges every record (TraceTables I_C02_*, coverage clause)", "§5 C02"),
  "C06": ("model_checking", "contract clauses C06_* over all histories + replay (good / wrong checksum / wrong size) and the product 3 prior states x 12 algorithms x spellings x {lower, upper, mixed, wrong} checksum x {correct, wrong, absent} size x {store_object, delete_if_invalid_object} on the real code, judged by TLC against VerdictValid as the property states it", "§5 C06"),
- "C14": ("model_checking", "Config.tla decision table; TLC explores all 5e6 (creation, reopening) pairs for its own invariants; the harness replays neighbours (quick) / the full product (thorough) on real empty and populated stores and TLC judges decision, byte-for-byte refusal and data visibility (TraceConfig)", "§5 C14"),
+ "C14": ("model_checking", "Config.tla decision table; TLC explores all 5e6 (creation, reopening) pairs for its own invariants; the harness replays neighbours (quick) / all 200 creations x ~500 attempts (thorough) on real empty and populated stores and TLC judges decision, byte-for-byte refusal and data visibility (TraceConfig)", "§5 C14"),
  "C15": ("model_checking", "Layout.tla (independent implementation of the README layout); every file found in real stores of all 120 (depth, width, algorithm) configurations after a fixed script is checked by TLC for location and content; several configurations per process with the same identifiers", "§5 C15"),
  "C16": ("model_checking", "USE_MULTIPROCESSING=True: the sequential contract walk, the C07/C12 interleaving scenarios and the fault enumeration re-run through the `_mp` branches (stand-in primitives, threads play processes), judged by the same TLC trace specs; plus real forked processes with real Manager lists/locks (sampling) judged for linearizability by TraceLin", "§5 C16"),
  "C18": ("model_checking", "TLC-simulated call histories replayed under adversarial injective instantiations of pids/formats with whole-file-system interposition; every step judged by TLC (all sequential clauses + C18_Bystander + C18_Contained): the code must behave like the model in which identifiers are uninterpreted", "§5 C18"),
